@@ -403,10 +403,8 @@ class document_c:
                                                               lambda q: cur(iter0.subdirs)[q] == subdirs[m])) and
                      forall(0, len(cur(iter0.subdirs)), lambda q: exists(0, len(subdirs),
                                                                         lambda m: subdirs[m] == cur(iter0.subdirs)[q]))),
-                    # C13: without -r the walk ends after the first directory that was processed
-                    lambda settings, recursive:
-                    recursive or _broke or
-                    not step_processed(settings.input.auto_exclude_directories_without_cmake, cur(iter0.filenames)),
+                    # C13: without -r the walk ends after its first step, whether that directory was processed or skipped
+                    lambda recursive: recursive or _broke,
                 ]),
         # ---- exclusion of sub-directories: subdirs = kept prefix ++ untouched rest
         1: Loop(inv=lambda spec, root, subdirs, _it, _k:
